@@ -240,12 +240,22 @@ fn classes(c: &Case, ctx: &mut Ctx) {
 
 pub struct C01;
 
+/// Fill the stack area the next walk is going to use with a recognisable byte, a different one per
+/// placement: a result computed from never-written memory (the crate keeps `MaybeUninit` buffers, e.g.
+/// in `ArpPacket`) then differs between the placements instead of repeating the same leftovers.
+#[inline(never)]
+fn dirty_stack(pattern: u8) {
+    let mut a = [pattern; 48 * 1024];
+    std::hint::black_box(&mut a);
+}
+
 pub fn c01_check(c: &Case, ctx: &mut Ctx) -> Result<(), Failure> {
     classes(c, ctx);
     let et = extra_et(c);
     // placement C: inside a heap Vec surrounded by 0x5a poison
     let mut heap = vec![0x5au8; c.bytes.len() + 64];
     heap[32..32 + c.bytes.len()].copy_from_slice(&c.bytes);
+    dirty_stack(0xc3);
     let out_c = walk_all(&heap[32..32 + c.bytes.len()], &c.ranges, et, true);
     let (out_a, out_b) = GUARD.with(|g| {
         let mut g = g.borrow_mut();
@@ -255,10 +265,12 @@ pub fn c01_check(c: &Case, ctx: &mut Ctx) -> Result<(), Failure> {
         let g = g.as_mut().unwrap();
         let a = {
             let placed = g.place_end(&c.bytes, 0xa5);
+            dirty_stack(0x3c);
             walk_all(placed, &c.ranges, et, true)
         };
         let b = {
             let placed = g.place_start(&c.bytes, 0xa5);
+            dirty_stack(0x96);
             walk_all(placed, &c.ranges, et, true)
         };
         (a, b)
@@ -356,7 +368,7 @@ impl Property for C01 {
         v
     }
     fn rule(&self) -> String {
-        "case = tape -> (packet grammar 70% | every-truncation-point of golden packets 10% | noise 20%); each input is fed to every public decoding entry point (whole-packet strict/lax x start points x ether types, 15 IP front ends, every *Slice::from_slice / *Header::from_slice / read via io::Cursor / read_limited / skip_*; list in obs/entries.rs) at offset 0 and at every generated layer start, and every accessor/conversion/iterator of each result is walked (obs/walk.rs), in three placements (end against a PROT_NONE page, start behind a PROT_NONE page with poison behind, heap with other poison) and in two build profiles (release: real over-reads hit the guard page; checked: debug assertions + core's unsafe-precondition checks abort). evaluations = entry-point walks. Non-trivial = >=3 entry points succeeded and >=10 returned slices were bounds-checked, or the input is a truncation; distinct = (start, generated layer sequence, set of succeeding entry points, truncated?)."
+        "case = tape -> (packet grammar 70% | every-truncation-point of golden packets 10% | noise 20%); each input is fed to every public decoding entry point (whole-packet strict/lax x start points x ether types, 15 IP front ends, every *Slice::from_slice / *Header::from_slice / read via io::Cursor / read_limited / skip_*; list in obs/entries.rs) at offset 0 and at every generated layer start, and every accessor/conversion/iterator of each result is walked (obs/walk.rs), in three placements (end against a PROT_NONE page, start behind a PROT_NONE page with poison behind, heap with other poison; the stack below the walk is pre-filled with a different byte per placement so that reads of never-written memory show up as a difference) and in two build profiles (release: real over-reads hit the guard page; checked: debug assertions + core's unsafe-precondition checks abort). evaluations = entry-point walks. Non-trivial = >=3 entry points succeeded and >=10 returned slices were bounds-checked, or the input is a truncation; distinct = (start, generated layer sequence, set of succeeding entry points, truncated?)."
             .into()
     }
     fn assumptions(&self) -> Vec<String> {
